@@ -22,6 +22,7 @@ META = {
     'assumptions': ['scheduler contexts never migrate between workers (named exemption of myth_sched_loop)',
                     'mmap returns fresh page-aligned memory'],
 }
+META['explanation'] += ' The finisher makes no access to its record after the unlock that follows FREE_READY2 (C12.2); a timed join reports busy only after an examined, unsuccessful try (C12.9).'
 
 NATIVE = 'myth_if_native.c'
 TH = 'myth_thread.'
